@@ -74,7 +74,7 @@ CHECKS["C15"] = dict(
     design="DESIGN.md S.2 and 3 C15, Appendix B")
 
 CHECKS["C01"] = dict(
-    technique="Coq proof (Lookup.v over the table lnodes._ufl_call_lookup regenerated by tr_lookup.py) that every UFL comparison / connective / conditional / arithmetic operator and elementary function is translated to the LNodes node of the same meaning; Coq proof that the argument factorisation (model Fact.v of ffcx/ir/analysis/factorization.py, tied by exact correspondence on every integrand of the sampled forms) preserves the value of every multilinear integrand in every commutative ring with conjugation; Coq proof that the classification and reduction of element tables (model Tab.v over Q; predicates regenerated by tr_tab and pinned; real predicates vs model on generated dyadic tables) leaves the value read by table_access within the table tolerances, inside the reduced extent; Coq proof of the layout facts (row-major flattening = printed stride expression, bijective onto [0,prod); blocked layout) + independent oracle (UFL point evaluation of the original integrand, textbook push-forwards, basix tabulation) against every cell kernel of the corpus; per exported kernel the theorems of C05/C07/C08/C16/C17/C19",
+    technique="Coq proof (Indexing.v, tied by idxcorr.py on every call the corpus makes) that the component maps of the value numbering (indexing.py: e2[multiindex], as_tensor) and the grouping of reconstruct.handle_index_sum are what indexing / index summation mean, for all shapes and index patterns; Coq proof (Lookup.v over the table lnodes._ufl_call_lookup regenerated by tr_lookup.py) that every UFL comparison / connective / conditional / arithmetic operator and elementary function is translated to the LNodes node of the same meaning; Coq proof that the argument factorisation (model Fact.v of ffcx/ir/analysis/factorization.py, tied by exact correspondence on every integrand of the sampled forms) preserves the value of every multilinear integrand in every commutative ring with conjugation; Coq proof that the classification and reduction of element tables (model Tab.v over Q; predicates regenerated by tr_tab and pinned; real predicates vs model on generated dyadic tables) leaves the value read by table_access within the table tolerances, inside the reduced extent; Coq proof of the layout facts (row-major flattening = printed stride expression, bijective onto [0,prod); blocked layout) + independent oracle (UFL point evaluation of the original integrand, textbook push-forwards, basix tabulation) against every cell kernel of the corpus; per exported kernel the theorems of C05/C07/C08/C16/C17/C19",
     text="The end-to-end statement (kernel = quadrature sum of the form) is decided per sampled form by differential execution against an independent oracle (agreement to ~1e-15 relative): NOT a theorem. Proved for all inputs are the soundness of the argument factorisation (integrand = sum over argkeys of factor times arguments, for all multilinear integrands; multilinearity is checked on every exported integrand) and the index-layout lemmas; proved per exported kernel are purity/accumulation, bounds, packing, C text = AST. Partial: UFL lowering, basix, table compression and the partition into loops are not modelled.",
     note="oracle (harness/oracle.py) trusted as specification; forms sampled (pinned + seeded random, explicit quadrature degrees); Coq kernel for Flatten.v, Fact.v; factcorr.py exporter",
     design="DESIGN.md S.2 and 3 C01")
@@ -90,7 +90,7 @@ CHECKS["C04"] = dict(
     note="oracle trusted as specification; expressions sampled; Coq kernel for Flatten.v; cffi JIT for the descriptor",
     design="DESIGN.md S.2 and 3 C04")
 CHECKS["C09"] = dict(
-    technique="Coq proof: finite exhaustive theorem over the formatter's math-function tables regenerated from /repo (every UFL math operator x 4 scalar types selects a function existing for the operand type, complex operands of real-only functions are rejected); oracle comparison of each form compiled for float32/float64/complex64/complex128 on data of that type",
+    technique="Coq proof (Dtype.v over merge_dtypes / extract_dtype regenerated by tr_dtype.py) that the type inferred for an intermediate variable is the widest type among ALL its operands (no complex value is ever stored in a real temporary); Coq proof: finite exhaustive theorem over the formatter's math-function tables regenerated from /repo (every UFL math operator x 4 scalar types selects a function existing for the operand type, complex operands of real-only functions are rejected); oracle comparison of each form compiled for float32/float64/complex64/complex128 on data of that type",
     text="Proved (finite, exhaustive over operators x scalar types, re-derived from the source on every run): the selected C function exists for the operand type; a complex operand never silently reaches a real-only function. Sampled: sesquilinear forms with complex data agree with the oracle evaluated in complex arithmetic with the test function conjugated, for all four scalar types; complex operands of erf/atan2/bessel must be rejected while real-valued operands still work.",
     note="Coq kernel+VM; tr_math.py; oracle trusted as specification (Python math/cmath, own Bessel quadrature); glibc libm/complex.h",
     design="DESIGN.md S.2 and 3 C09")
